@@ -12,7 +12,7 @@ import os
 import random
 
 from .. import env  # noqa: F401
-from .. import gen, build, mcase
+from .. import gen, build, mcase, oracles
 from ..ctx import jhash
 
 ID = "C10"
@@ -31,7 +31,7 @@ ANCHORS = [("leuvenmapmatching/matcher/base.py", "BaseMatcher._build_node_path")
 FLOORS = {"cases_compared_across_processes": 800, "cases_with_two_final_candidates": 400, "permutations_judged": 1500,
           "final_column_with_nonemitting_layer": 40, "exact_tie_in_final_column": 50, "string_label_cases": 300, "mirror_loop_cases": 300, "nonemitting_state_with_exactly_tied_predecessors": 100}
 ASSUMPTIONS = ["hash-seed clause: canonical results (returned states, index, keys and log-probabilities of the best path) must be IDENTICAL across processes",
-               "permutation clause: index and best probability equal (1e-9); paths may differ only when their totals are equal to 1e-12 (exact tie)"]
+               "permutation clause: index and best probability equal (1e-9); paths may differ only through an exact tie: equal totals, or equal probability of the two alternatives at the first position where the paths diverge (what follows - e.g. the trailing non-emitting states after an early stop - is a consequence of that choice)"]
 HASHSEEDS = ["0", "1", "2", "3", "11", "17", "42", "99", "123", "1000", "31337", "4242"]
 
 
@@ -172,7 +172,7 @@ def check_case(ctx, case):
                 ctx.violation(f"C10:permutation:best-probability-differs:{fam}", {"base": case, "permuted": pc}, f"{c['best']!r} vs {c2['best']!r}")
             elif [k for k, _ in c["path"]] != [k for k, _ in c2["path"]]:
                 p1, p2 = c["path"][-1][1], c2["path"][-1][1]
-                if abs(p1 - p2) <= 1e-12 * max(1.0, abs(p1)):
+                if oracles.tie_induced(c["path"], c2["path"]):
                     ctx.count("permutation_paths_differ_exact_tie")
                 else:
                     ctx.violation(f"C10:permutation:path-differs-without-tie:{fam}", {"base": case, "permuted": pc},
